@@ -46,7 +46,7 @@ func (t *rTracer) CaptureState(env *rvm.EVM, pc uint64, op rvm.OpCode, gas, cost
 	}
 	o := byte(op)
 	if !interesting(o) {
-		t.c.count(depth, pc, o, gas, cost, 1 << 23)
+		t.c.count(depth, pc, o, gas, cost, 1<<23)
 		return nil
 	}
 	if o == 0xf0 || o == 0xf5 {
@@ -138,46 +138,57 @@ func runRef(c EVMCase, stepLimit int) (res *result) {
 	}
 	cfg := rparams.AllEthashProtocolChanges // every fork incl. Constantinople/Petersburg at block 0
 	tr := &rTracer{c: res.tr}
-	evm := rvm.NewEVM(ctx, st, cfg, rvm.Config{Debug: true, Tracer: tr})
-	res.tr.cancel = evm.Cancel
-	st.Prepare(rcommon.Hash{1}, rcommon.Hash{2}, 0)
 	value := new(big.Int).SetBytes(c.Value)
-	var ret []byte
-	var verr error
-	if len(c.To) == 0 {
-		var addr rcommon.Address
-		expect := rcrypto.CreateAddress(sender, st.GetNonce(sender))
-		res.tr.createdAddrs = append(res.tr.createdAddrs, fmt.Sprintf("%x", expect[:]))
-		ret, addr, _, verr = evm.Create(rvm.AccountRef(sender), c.Data, topGas, value)
-		res.created = fmt.Sprintf("%x", addr[:])
-	} else {
-		st.SetNonce(sender, st.GetNonce(sender)+1)
-		ret, _, verr = evm.Call(rvm.AccountRef(sender), rcommon.BytesToAddress(c.To), c.Data, topGas, value)
-	}
-	res.ret = ret
-	switch {
-	case verr == nil:
-		res.class = "success"
-	case verr.Error() == "evm: execution reverted":
-		res.class, res.errText = "revert", verr.Error()
-	default:
-		res.class, res.errText = "failure", verr.Error()
-	}
-	for _, l := range st.Logs() {
-		lr := logRec{Addr: fmt.Sprintf("%x", l.Address[:]), Data: fmt.Sprintf("%x", l.Data)}
-		for _, tp := range l.Topics {
-			lr.Topics = append(lr.Topics, fmt.Sprintf("%x", tp[:]))
+	for txi := 0; txi <= c.Again; txi++ {
+		var ret []byte
+		var verr error
+		res.tr.newTx()
+		evm := rvm.NewEVM(ctx, st, cfg, rvm.Config{Debug: true, Tracer: tr})
+		res.tr.cancel = evm.Cancel
+		thash := rcommon.Hash{1, byte(txi)}
+		st.Prepare(thash, rcommon.Hash{2}, txi)
+		if len(c.To) == 0 {
+			var addr rcommon.Address
+			expect := rcrypto.CreateAddress(sender, st.GetNonce(sender))
+			res.tr.createdAddrs = append(res.tr.createdAddrs, fmt.Sprintf("%x", expect[:]))
+			ret, addr, _, verr = evm.Create(rvm.AccountRef(sender), c.Data, topGas, value)
+			res.created = join(res.created, fmt.Sprintf("%x", addr[:]))
+		} else {
+			st.SetNonce(sender, st.GetNonce(sender)+1)
+			ret, _, verr = evm.Call(rvm.AccountRef(sender), rcommon.BytesToAddress(c.To), c.Data, topGas, value)
 		}
-		res.logs = append(res.logs, lr)
-	}
-	for a := range res.tr.sdAddrs {
-		if st.HasSuicided(rcommon.HexToAddress(a)) {
-			res.suicided = append(res.suicided, a)
+		if txi > 0 {
+			res.ret = append(res.ret, 0xff, byte(txi), 0xff)
+		}
+		res.ret = append(res.ret, ret...)
+		switch {
+		case verr == nil:
+			res.class = join(res.class, "success")
+		case verr.Error() == "evm: execution reverted":
+			res.class, res.errText = join(res.class, "revert"), join(res.errText, verr.Error())
+		default:
+			res.class, res.errText = join(res.class, "failure"), join(res.errText, verr.Error())
+		}
+		for _, l := range st.GetLogs(thash) {
+			lr := logRec{Addr: fmt.Sprintf("%x", l.Address[:]), Data: fmt.Sprintf("%x", l.Data)}
+			for _, tp := range l.Topics {
+				lr.Topics = append(lr.Topics, fmt.Sprintf("%x", tp[:]))
+			}
+			res.logs = append(res.logs, lr)
+		}
+		for a := range res.tr.sdAddrs {
+			if st.HasSuicided(rcommon.HexToAddress(a)) {
+				res.suicided = append(res.suicided, txTag(txi)+a)
+				res.tr.destroyed[a] = true
+			}
+		}
+		// core.ApplyTransaction under Byzantium+: statedb.Finalise(true)
+		st.Finalise(true)
+		if res.tr.aborted {
+			break
 		}
 	}
 	sort.Strings(res.suicided)
-	// core.ApplyTransaction under Byzantium+: statedb.Finalise(true)
-	st.Finalise(true)
 	if _, err := st.Commit(true); err != nil {
 		panic(err)
 	}
